@@ -869,7 +869,7 @@ func runOneSimClose(c scCase) (fails []monFail, info string, term string) {
 						// computes its keep-alive interval from 5 s, the other side times out before
 						key = "simclose/ka-alive/closed/remote-idle-below-5s"
 					}
-					if c.SpecIdle == "adv" && c.SpecTc < c.CliIdle {
+					if (c.SpecIdle == "adv" && c.SpecTc < c.CliIdle) || (c.SpecIdle == "" && c.Client != "plain" && c.Client != "unil" && c.CliIdle > 30*time.Second) {
 						// the spec tells the peer a shorter max_idle_timeout than the client enforces (max(Config, spec)); the
 						// keep-alive interval is computed from the enforced value and the peer's, not from what the peer was told
 						key = "simclose/ka-alive/closed/spec-advertises-less-than-enforced"
@@ -1315,6 +1315,13 @@ func runSimClose(w *bufio.Writer, seed uint64, n int, args []string) {
 			c.Cause, c.Client, c.SpecIdle, c.SpecTc, c.CliIdle, c.SrvIdle = "silence", "Chrome_115_IPv4", t.mode, t.tc, t.conf, t.srv
 			c.RTT = 10 * time.Millisecond
 			c = fixupCase(c)
+		} else if j := i - len(scCauses) - len(scSpecIdleTable); j >= 0 && j < len(scSpecKATable) {
+			// keep-alive of a spec-driven client that advertises less than it enforces (repo 97504e3)
+			t := scSpecKATable[j]
+			c.Cause, c.Client, c.SpecIdle, c.SpecTc, c.CliIdle, c.CliKA, c.SrvIdle, c.SrvKA = "ka-alive", "Chrome_115_IPv4", t.mode, t.tc, t.conf, t.kap, t.srv, 0
+			c.RTT = 10 * time.Millisecond
+			c = fixupCase(c)
+			c.CliKA, c.SrvKA = t.kap, 0
 		}
 		if only >= 0 && i != only {
 			continue
@@ -1369,6 +1376,14 @@ var scSpecIdleTable = []struct {
 	{"suppress", 4 * time.Second, 9 * time.Second, 22 * time.Second},
 	{"suppress", 15 * time.Second, 6 * time.Second, 25 * time.Second},
 	{"suppress", 15 * time.Second, 20 * time.Second, 7 * time.Second},
+}
+
+var scSpecKATable = []struct {
+	mode               string
+	tc, conf, kap, srv time.Duration
+}{
+	{"adv", 4 * time.Second, 13 * time.Second, 6600 * time.Millisecond, 18 * time.Second},
+	{"", 0, 60 * time.Second, 45 * time.Second, 120 * time.Second}, // the built-in parrot advertises 30 s
 }
 
 // fixupCase re-applies the cause-dependent constraints after the cause was overridden.
